@@ -179,4 +179,49 @@ def peAlignExactA (s : Nat → Nat → Int) (g : Int) (la lb : Nat) (m0 : Mats) 
         | none => none
       else some (⟨false, r.score, r.path⟩, m2)
 
+/-- `PEAlign`, fast mode, on the arena: the local fill is the **verbatim** loop nest over the flat matrices
+(whatever the previous pair left there) followed by `_Backtracking` on the flat path matrix; the
+"identical overlap" branch does not touch the matrices.  Same control structure as `peAlignFastFrom`. -/
+def peAlignFastFromA (s : Nat → Nat → Int) (g : Int) (la lb : Nat) (delta : Nat) (shift count : Int) (m0 : Mats) :
+    Option (PERes × Mats) :=
+  let ov := over la lb shift
+  let local_ : Option ((Bool × Int × Path × Int × Int) × Mats) :=
+    if count < 1 ∨ count + 3 < ov then
+      if shift > 0 then
+        let startA := (shift - delta).toNat
+        if startA > la then none
+        else
+          let lra := la - startA
+          let partLen := min lra lb
+          match fillLeftA (fun i j => s (startA + i) j) g lra partLen m0 with
+          | some (r, m) => some ((true, r.score, r.path, -(startA : Int), (lb : Int) - partLen), m)
+          | none => none
+      else
+        let startB := (-shift - delta).toNat
+        if startB > lb then none
+        else
+          let lrb := lb - startB
+          let partLen := min lrb la
+          match fillRightA (fun i j => s i (startB + j)) g partLen lrb m0 with
+          | some (r, m) => some ((false, r.score, r.path, (startB : Int), (partLen : Int) - la), m)
+          | none => none
+    else
+      if shift > 0 then
+        let startA := shift.toNat
+        if startA > la then none
+        else
+          let partLen := la - startA
+          if partLen > lb then none
+          else some ((true, diagScore s partLen startA 0, [0, (partLen : Int)], -(startA : Int), (lb : Int) - partLen), m0)
+      else
+        let startB := (-shift).toNat
+        if startB > lb then none
+        else
+          let partLen := lb - startB
+          if partLen > la then none
+          else some ((false, diagScore s partLen 0 startB, [0, (partLen : Int)], (startB : Int), (partLen : Int) - la), m0)
+  match local_ with
+  | some ((isLeft, score, path, extra5, extra3), m) => some (⟨isLeft, score, extend3 extra3 (extend5 extra5 path)⟩, m)
+  | none => none
+
 end ObiVerif.PEAlign
